@@ -105,12 +105,14 @@ class Node:
         if r[1] != "new":
             raise RuntimeError("injection refused: %s" % (r,))
         q0 = len(o.queue) if hasattr(o, "queue") else 0
+        cfg = dict(addr=o.node_address, lvl=o.multicast_level, role=self.role, allowMc=bool(o.allow_multicast),
+                   relay=bool(o.multicast_relay), retSys=bool(o.ret_sys_msg), parent=bool(getattr(o, "allow_children", True)))
         self.air.log.clear()
         t0 = s.now
         s.deadline = t0 + 3_000_000_000
-        exc = "none"
+        exc, ret = "none", 0
         try:
-            o.update()
+            ret = o.update()
         except sim.WatchdogExpired:
             exc = "Hang"
         except Exception as e:  # noqa
@@ -120,10 +122,18 @@ class Node:
         dt = (s.now - t0) // 1000
         q1 = len(o.queue)
         sent = [p["data"] for p in self.air.log]
+        sent_full = [dict(phys=list(p["addr"]), data=list(p["data"]), noack=not p["want_ack"]) for p in self.air.log]   # noack: no radio-level acknowledgement awaited
+        qhead = dict(**{"from": -1}, to=-1, id=-1, type=-1, msg=[])
+        first = True
         while o.available():
-            o.read()
+            fr = o.read()
+            if first and q0 == 0:
+                qhead = dict(**{"from": fr.header.from_node}, to=fr.header.to_node, id=fr.header.frame_id,
+                             type=fr.header.message_type, msg=list(fr.message))
+            first = False
         return dict(k="inj", role=self.role, level=self.level, addr=self.addr, raw=list(raw), exc=exc, queued=max(0, q1 - q0),
-                    ntx=len(sent), sent=sent, dt=int(dt), bound=400000)
+                    ntx=len(sent), sent=sent, dt=int(dt), bound=400000, cfg=cfg, ret=int(ret) if isinstance(ret, int) else -1,
+                    sent_full=sent_full, qhead=qhead, prefix=0xCC, suffix=[0xC3, 0x3C, 0x33, 0xCE, 0x3E, 0xE3])
 
 
 def dest_classes(addr, level):
